@@ -22,11 +22,17 @@ import (
 	"time"
 )
 
-const (
-	verifDir = "/verif"
-	repoDir  = "/repo"
-	srsFile  = "/repo/sql/types/spatial_reference_systems.go"
+const verifDir = "/verif"
+
+// The tree under test is /repo's working tree. VERIF_REPO names a frozen copy of
+// it instead (a scratch git worktree): used only for long background sweeps, so
+// that a seeded change applied to /repo for a moment cannot leak into them. The
+// registered commands never set it.
+var (
+	repoDir = envOr("VERIF_REPO", "/repo")
+	srsFile = filepath.Join(repoDir, "sql/types/spatial_reference_systems.go")
 )
+
 
 type violation struct {
 	Oracle string `json:"oracle"`
@@ -149,6 +155,18 @@ func buildWorld(world string, race bool) string {
 		args = append(args, "-race")
 	}
 	args = append(args, overlayArgs()...)
+	if repoDir != "/repo" {
+		// same module file with the replace directive pointing at the copy
+		mod, err := os.ReadFile(filepath.Join(verifDir, "sim", "go.mod"))
+		if err != nil {
+			die2("go.mod: %v", err)
+		}
+		alt := filepath.Join(workDir(), "alt.mod")
+		os.WriteFile(alt, []byte(strings.ReplaceAll(string(mod), "=> /repo", "=> "+repoDir)), 0o644)
+		sum, _ := os.ReadFile(filepath.Join(verifDir, "sim", "go.sum"))
+		os.WriteFile(filepath.Join(workDir(), "alt.sum"), sum, 0o644)
+		args = append(args, "-modfile="+alt)
+	}
 	args = append(args, "-o", out, "./"+world)
 	cmd := exec.Command(goTool(), args...)
 	cmd.Dir = filepath.Join(verifDir, "sim")
